@@ -233,3 +233,12 @@ package codegen
 //@   loop 0 invariant forall k int :: {p._stack[k]} 0 <= k && k < len(p._stack) ==> validState(p._stack[k].State)
 //@   loop 0 invariant forall k int, q int32, d int :: {item(p._stack[k].State, q, d)} 0 <= k && k < len(p._stack) && item(p._stack[k].State, q, d) ==> 0 <= d && d <= k && item(p._stack[k - d].State, q, 0)
 //@   loop 0 invariant unchangedOld(elems(int32)) && unchangedOld(fields(fxParser), *p)
+//
+//@ func _LexerStateMachine.Reset
+//@   requires !isnil(l)
+//@   ensures isnil(l.mode) && l.state == 0 && l.modeStack == old(l.modeStack) && l.token == old(l.token)
+//@   modifies l.mode, l.state
+//
+//@ func _LexerStateMachine.Token
+//@   requires !isnil(l)
+//@   ensures result == l.token
